@@ -2017,12 +2017,16 @@ func (bc *Blockchain) GetStateSyncModule() *statesync.Module {
 // This is the only way to change Blockchain state.
 func (bc *Blockchain) storeBlock(block *block.Block, txpool *mempool.Pool) error {
 	var (
+		oldPricing     txPricing
 		cache          = bc.dao.GetPrivate()
 		aerCache       = bc.dao.GetPrivate()
 		appExecResults = make([]*state.AppExecResult, 0, 2+len(block.Transactions))
 		aerchan        = make(chan *state.AppExecResult, len(block.Transactions)/8) // Tested 8 and 4 with no practical difference, but feel free to test more and tune.
 		aerdone        = make(chan error)
 	)
+	if block.Index != 0 {
+		oldPricing = bc.getTxPricing()
+	}
 	go func() {
 		var (
 			kvcache      = aerCache
@@ -2194,9 +2198,16 @@ func (bc *Blockchain) storeBlock(block *block.Block, txpool *mempool.Pool) error
 	bc.stateRoot.UpdateCurrentLocal(mpt, sr)
 	bc.topBlock.Store(block)
 	atomic.StoreUint32(&bc.blockHeight, block.Index)
-	bc.memPool.RemoveStale(func(tx *transaction.Transaction) bool { return bc.IsTxStillRelevant(tx, txpool, false) }, bc)
+	// Pooled transactions paid for their witnesses at the old prices.
+	var isRelevant = bc.IsTxStillRelevant
+	if block.Index != 0 && bc.getTxPricing() != oldPricing {
+		isRelevant = func(t *transaction.Transaction, txpool *mempool.Pool, isPartialTx bool) bool {
+			return bc.isTxStillRelevant(t, txpool, isPartialTx, true)
+		}
+	}
+	bc.memPool.RemoveStale(func(tx *transaction.Transaction) bool { return isRelevant(tx, txpool, false) }, bc)
 	for _, f := range bc.postBlock {
-		f(bc.IsTxStillRelevant, txpool, block)
+		f(isRelevant, txpool, block)
 	}
 	if err := bc.updateExtensibleWhitelist(block.Index); err != nil {
 		bc.lock.Unlock()
@@ -3174,10 +3185,29 @@ func (bc *Blockchain) verifyTxAttributes(d *dao.Simple, tx *transaction.Transact
 // was already done so we don't need to check basic things like size, input/output
 // correctness, presence in blocks before the new one, etc.
 func (bc *Blockchain) IsTxStillRelevant(t *transaction.Transaction, txpool *mempool.Pool, isPartialTx bool) bool {
-	var (
-		recheckWitness bool
-		curheight      = bc.BlockHeight()
-	)
+	return bc.isTxStillRelevant(t, txpool, isPartialTx, false)
+}
+
+// txPricing is the set of Policy values the network fee of a transaction is
+// checked against.
+type txPricing struct {
+	execFee, feePerByte int64
+	attributes          [5]int64
+}
+
+func (bc *Blockchain) getTxPricing() txPricing {
+	p := txPricing{execFee: bc.GetBaseExecFee(), feePerByte: bc.FeePerByte()}
+	for i, t := range []transaction.AttrType{transaction.HighPriority, transaction.OracleResponseT,
+		transaction.NotValidBeforeT, transaction.ConflictsT, transaction.NotaryAssistedT} {
+		p.attributes[i] = bc.policy.GetAttributeFeeInternal(bc.dao, t)
+	}
+	return p
+}
+
+// isTxStillRelevant implements IsTxStillRelevant, recheckWitness makes it
+// verify standard witnesses too.
+func (bc *Blockchain) isTxStillRelevant(t *transaction.Transaction, txpool *mempool.Pool, isPartialTx bool, recheckWitness bool) bool {
+	var curheight = bc.BlockHeight()
 
 	if t.ValidUntilBlock <= curheight {
 		return false
@@ -3187,6 +3217,12 @@ func (bc *Blockchain) IsTxStillRelevant(t *transaction.Transaction, txpool *memp
 			return false
 		}
 	} else if txpool.HasConflicts(t, bc) {
+		return false
+	}
+	if bc.policy.CheckPolicy(bc.dao, t) != nil {
+		return false
+	}
+	if t.NetworkFee < int64(t.Size())*bc.FeePerByte()+bc.CalculateAttributesFee(t) {
 		return false
 	}
 	if err := bc.verifyTxAttributes(bc.dao, t, isPartialTx); err != nil {
